@@ -9,7 +9,7 @@
 import ast
 import z3
 
-from pyvc.core import SymObj, PList, PDict, ClassVal, fresh_int, fresh_bool, fresh_name, Unsupported, State, FuncVal
+from pyvc.core import SymObj, PList, PDict, ClassVal, fresh_int, fresh_bool, fresh_name, Unsupported, State, FuncVal, same_value
 from pyvc.interp_ext import LoopSpec
 from pyvc import xbuf as XB
 from . import types_vc as T
@@ -600,7 +600,7 @@ def vc_handle_equals_view():
                     for st2, v in it.call_function(st.clone(), FuncVal(ARR, "Array._from_buffer", cls), [b, off], {}, None):
                         ob = lambda c, g: it.oblige(st2, "post", f"{c}[{lab}]", g if not isinstance(g, bool) else z3.BoolVal(g))
                         hh = it._relocate(st2, h)
-                        ob("same_buffer_and_offset", getattr(hh.attrs.get("_buffer"), "uid", 0) == getattr(v.attrs.get("_buffer"), "uid", 1) and hh.attrs.get("_offset") is v.attrs.get("_offset"))
+                        ob("same_buffer_and_offset", same_value(hh.attrs.get("_offset"), v.attrs.get("_offset")) if getattr(hh.attrs.get("_buffer"), "uid", 0) == getattr(v.attrs.get("_buffer"), "uid", 1) else False)
                         for attr in ("_size", "_shape", "_strides"):
                             ha, va = hh.attrs.get(attr), v.attrs.get(attr)
                             ob(f"{attr}_present_in_both_or_neither", (ha is None) == (va is None))
@@ -954,7 +954,7 @@ def vc_struct_handle_equals_view():
                     for st2, v in it.call_function(st.clone(), FuncVal(STRUCT, "Struct._from_buffer", cls), [b, off], {}, None):
                         ob = lambda c, g: it.oblige(st2, "post", f"{c}[{lab}]", g if not isinstance(g, bool) else z3.BoolVal(g))
                         hh = it._relocate(st2, h)
-                        ob("same_offset", hh.attrs.get("_offset") is v.attrs.get("_offset"))
+                        ob("same_offset", same_value(hh.attrs.get("_offset"), v.attrs.get("_offset")))
                         ob("size_equal", hh.attrs.get("_size") == v.attrs.get("_size") if dyn else hh.attrs.get("_size") == cls.attrs["_size"])
                         ho, vo = hh.attrs.get("_offsets"), v.attrs.get("_offsets")
                         if len(dyn) >= 2:
